@@ -41,6 +41,13 @@ def extra_files():
     out.append(('props/property-only-channel', [G.seg([(A, ['NODATA'], [['p', 'Int32', '05000000']]), (B, ['FULL', 'Int8', 2])])]))
     out.append(('props/all-types', [G.seg([(A, ['FULL', 'Int8', 1],
                                            [['p_' + t, t, (G.POOLS[t][0] if t != 'String' else 'é'.encode()).hex()] for t in G.PROP_TYPES])])]))
+    import struct as _st
+    edge = [['u63m', 'Uint64', _st.pack('<Q', 2 ** 63 - 1).hex()], ['u63', 'Uint64', _st.pack('<Q', 2 ** 63).hex()],
+            ['u63p', 'Uint64', _st.pack('<Q', 2 ** 63 + 1).hex()], ['umax', 'Uint64', _st.pack('<Q', 2 ** 64 - 1).hex()],
+            ['imin', 'Int64', _st.pack('<q', -2 ** 63).hex()], ['i31', 'Int64', _st.pack('<q', 2 ** 31).hex()],
+            ['i31m', 'Int32', _st.pack('<i', 2 ** 31 - 1).hex()], ['i31n', 'Int32', _st.pack('<i', -2 ** 31).hex()],
+            ['i31nn', 'Int64', _st.pack('<q', -2 ** 31 - 1).hex()], ['u32', 'Uint32', _st.pack('<I', 2 ** 32 - 1).hex()]]
+    out.append(('props/integer-boundaries', [G.seg([('/', ['NODATA'], edge), ("/'g'", ['NODATA'], edge), (A, ['FULL', 'Int8', 1], edge)])]))
     out.append(('empty/typed-int', [G.seg([(A, ['FULL', 'Int32', 0]), (B, ['FULL', 'Int8', 2])])]))
     out.append(('empty/string', [G.seg([(A, ['FULL', 'String', 0, 0]), (B, ['FULL', 'Int8', 2])])]))
     out.append(('empty/timestamp', [G.seg([(A, ['FULL', 'TimeStamp', 0]), (B, ['FULL', 'Int8', 2])])]))
